@@ -2247,6 +2247,15 @@ class Exec(object):
             return self.run_spec_function(fref, env)
         contract = None if self.concrete else eng.contracts.get(fq)
         topc = eng.contracts.get(self.top_fq) if self.top_fq else None
+        if topc is not None and fq in (topc.get("abstract_callees") or ()):
+            # an overridable method seen from its base class: whatever the subclass computes, it is a function of the
+            # receiver (and arguments).  The value is an opaque token: two calls give equal values iff equal tokens.
+            key = (fq,) + tuple(eng.value_key(env[k]) for k in sorted(env))
+            memo = self.ctx.__dict__.setdefault("abstract_memo", {})
+            if key not in memo:
+                memo[key] = mk_int(self.ctx.fresh("abs_" + fq.rsplit(".", 1)[-1]))
+                self.ctx.tags.add("abstract method: %s is any function of its receiver (opaque value)" % fq.split("mingus.")[-1])
+            return memo[key]
         if topc is not None and fq in (topc.get("inline_callees") or ()):
             return self.run_function(fref, env, line)
         if contract is not None and not contract.get("inline"):
